@@ -25,6 +25,7 @@ noncomputable instance instTFReal : ThermoField ℝ where
   le a b := decide (a ≤ b)
   lt a b := decide (a < b)
   bad := 0
+  fma a b c := a * b + c
 
 theorem tf_add (a b : ℝ) : @HAdd.hAdd ℝ ℝ ℝ (@instHAdd ℝ ThermoField.toAdd) a b = a + b := rfl
 theorem tf_sub (a b : ℝ) : @HSub.hSub ℝ ℝ ℝ (@instHSub ℝ ThermoField.toSub) a b = a - b := rfl
@@ -36,6 +37,7 @@ theorem tf_exp (a : ℝ) : ThermoField.exp a = Real.exp a := rfl
 theorem tf_pow (a b : ℝ) : ThermoField.pow a b = a ^ b := rfl
 theorem tf_lit (b : UInt64) (n : Int) (d : Nat) : (ThermoField.lit b n d : ℝ) = (n : ℝ) / (d : ℝ) := rfl
 theorem tf_ofInt (i : Int) : (ThermoField.ofInt i : ℝ) = (i : ℝ) := rfl
+theorem tf_fma (a b c : ℝ) : ThermoField.fma a b c = a * b + c := rfl
 theorem tf_bad : (ThermoField.bad : ℝ) = 0 := rfl
 theorem tf_le (a b : ℝ) : (ThermoField.le a b = true) ↔ a ≤ b := by simp [ThermoField.le]
 theorem tf_lt (a b : ℝ) : (ThermoField.lt a b = true) ↔ a < b := by simp [ThermoField.lt]
